@@ -117,6 +117,12 @@ theorem args_flat (m : Msg) (sep : Byte) : ArgsAgrees m sep :=
 example : (Msg.mk [97, 32] [[], [98, 99], [32]]).arrayMessage 32 = .ok (2, [97, 0, 98, 99, 0]) ∧
     (Msg.mk [39, 97] [[32, 98, 39]]).arrayMessage 32 = .ok (1, [39, 97, 32, 98, 39, 0]) := by decide
 
+/-- allocation failure in `mpt_array_message` (its one allocation, the work array): refused with
+    BadOperation, nothing else happens; an empty message needs no allocation -/
+theorem args_nomem (m : Msg) (sep : Byte) :
+    m.arrayMessage sep false = if m.length = 0 then .ok (0, []) else .err .BadOperation := by
+  unfold Msg.arrayMessage; split <;> simp
+
 /-- the contiguous argument loop never runs out of its fuel (so `.fault` above cannot occur) -/
 theorem args_spec_total (d : List Byte) (sep : Byte) : (Flat.args d sep).isSome = true :=
   args_total d sep
@@ -139,5 +145,20 @@ example : (Msg.get (Ring.make 4 3 [1, 2, 3]) 0 3) = .ok ⟨[1], [[2, 3]]⟩ := b
 theorem get_refused (r : Ring) (pos take : Nat) (hgt : r.len < pos + take) :
     ∃ e, Msg.get r pos take = .err e :=
   Mpt.get_refused r pos take hgt
+
+/-- `mpt_message_get` without a second iovec: either the single-fragment message denoting exactly the
+    requested stretch, or refused with −3 (the stretch wraps and would need a second fragment) -/
+theorem get_novec (r : Ring) (h : r.len ≤ r.store.length ∧ r.off ≤ r.store.length) (pos take : Nat)
+    (hle : pos + take ≤ r.len) :
+    (∃ m, Msg.getNoVec r pos take = .ok m ∧ m.cont = [] ∧ some m.flat = Flat.get r.content pos take) ∨
+    Msg.getNoVec r pos take = .err .BadType := by
+  obtain ⟨m, h1, h2⟩ := get_flat r h pos take hle
+  unfold Msg.getNoVec
+  rw [h1]
+  by_cases hc : m.cont.length = 0
+  · exact Or.inl ⟨m, by simp [hc], List.eq_nil_of_length_eq_zero hc, h2⟩
+  · exact Or.inr (by simp [hc])
+example : Msg.getNoVec (Ring.make 4 3 [1, 2, 3]) 0 3 = .err .BadType ∧
+    Msg.getNoVec (Ring.make 4 3 [1, 2, 3]) 1 2 = .ok ⟨[2, 3], []⟩ := by decide
 
 end Mpt.C17
